@@ -1,6 +1,7 @@
 import sys
 
 import functools
+import types
 from itertools import zip_longest
 import operator
 import typing as t
@@ -94,7 +95,7 @@ def type_union(types: t.Iterable[type]) -> type:
 def flatten_union_args(types: t.Iterable[T]) -> t.Iterator[T]:
     """Flatten nested unions, returning a single sequence of possible union types."""
     for ty in types:
-        if t.get_origin(ty) is t.Union:
+        if t.get_origin(ty) in (t.Union, getattr(types, 'UnionType', t.Union)):
             yield from flatten_union_args(t.get_args(ty))
         else:
             yield ty
